@@ -177,12 +177,14 @@ func (c *DiskCache) get(id ActionID) (Entry, error) {
 	missing := func(reason error) (Entry, error) {
 		return Entry{}, &entryNotFoundError{Err: reason}
 	}
+	verifStep("get.open", c.fileName(id, "a"))
 	f, err := os.Open(c.fileName(id, "a"))
 	if err != nil {
 		return missing(err)
 	}
 	defer f.Close()
 	entry := make([]byte, entrySize+1) // +1 to detect whether f is too long
+	verifStep("get.read", c.fileName(id, "a"))
 	if n, err := io.ReadFull(f, entry); n > entrySize {
 		return missing(errors.New("too long"))
 	} else if err != io.ErrUnexpectedEOF {
@@ -273,6 +275,7 @@ func GetBytes(c Cache, id ActionID) ([]byte, Entry, error) {
 func (c *DiskCache) OutputFile(out OutputID) string {
 	file := c.fileName(out, "d")
 	c.used(file)
+	verifStep("outputfile.return", file)
 	return file
 }
 
@@ -304,10 +307,12 @@ const (
 // nearly all of the mtime updates that would otherwise happen,
 // while still keeping the mtimes useful for cache trimming.
 func (c *DiskCache) used(file string) {
+	verifStep("used.stat", file)
 	info, err := os.Stat(file)
 	if err == nil && c.now().Sub(info.ModTime()) < mtimeInterval {
 		return
 	}
+	verifStep("used.chtimes", file)
 	os.Chtimes(file, c.now(), c.now())
 }
 
@@ -318,6 +323,7 @@ func (c *DiskCache) Trim() {
 	// We maintain in dir/trim.txt the time of the last completed cache trim.
 	// If the cache has been trimmed recently enough, do nothing.
 	// This is the common case.
+	verifStep("trim.readstamp", filepath.Join(c.dir, "trim.txt"))
 	data, _ := renameio.ReadFile(filepath.Join(c.dir, "trim.txt"))
 	t, err := strconv.ParseInt(strings.TrimSpace(string(data)), 10, 64)
 	if err == nil && now.Sub(time.Unix(t, 0)) < trimInterval {
@@ -335,6 +341,7 @@ func (c *DiskCache) Trim() {
 
 	// Ignore errors from here: if we don't write the complete timestamp, the
 	// cache will appear older than it is, and we'll trim it again next time.
+	verifStep("trim.writestamp", filepath.Join(c.dir, "trim.txt"))
 	renameio.WriteFile(filepath.Join(c.dir, "trim.txt"), fmt.Appendf(nil, "%d", now.Unix()), 0666)
 }
 
@@ -351,6 +358,7 @@ func (c *DiskCache) trimSubdir(subdir string, cutoff time.Time) {
 	// in the directory scan. Also, ignore error from f.Readdirnames,
 	// because we don't care about reporting the error and we still
 	// want to process any entries found before the error.
+	verifStep("trim.readdir", subdir)
 	f, err := os.Open(subdir)
 	if err != nil {
 		return
@@ -364,8 +372,10 @@ func (c *DiskCache) trimSubdir(subdir string, cutoff time.Time) {
 			continue
 		}
 		entry := filepath.Join(subdir, name)
+		verifStep("trim.stat", entry)
 		info, err := os.Stat(entry)
 		if err == nil && info.ModTime().Before(cutoff) {
+			verifStep("trim.remove", entry)
 			os.Remove(entry)
 		}
 	}
@@ -398,10 +408,12 @@ func (c *DiskCache) putIndexEntry(id ActionID, out OutputID, size int64, allowVe
 
 	// Copy file to cache directory.
 	mode := os.O_WRONLY | os.O_CREATE
+	verifStep("index.open", file)
 	f, err := os.OpenFile(file, mode, 0666)
 	if err != nil {
 		return err
 	}
+	verifStep("index.write", file)
 	_, err = f.WriteString(entry)
 	if err == nil {
 		// Truncate the file only *after* writing it.
@@ -411,6 +423,7 @@ func (c *DiskCache) putIndexEntry(id ActionID, out OutputID, size int64, allowVe
 		// via os.O_TRUNC. Truncating only after writing ensures that a second write
 		// of the same content to the same file is idempotent, and does not — even
 		// temporarily! — undo the effect of the first write.
+		verifStep("index.truncate", file)
 		err = f.Truncate(int64(len(entry)))
 	}
 	if closeErr := f.Close(); err == nil {
@@ -422,6 +435,7 @@ func (c *DiskCache) putIndexEntry(id ActionID, out OutputID, size int64, allowVe
 		os.Remove(file)
 		return err
 	}
+	verifStep("index.chtimes", file)
 	os.Chtimes(file, c.now(), c.now()) // mainly for tests
 
 	return nil
@@ -485,9 +499,11 @@ func PutBytes(c Cache, id ActionID, data []byte) error {
 // output ID and size, if that file is not present already.
 func (c *DiskCache) copyFile(file io.ReadSeeker, out OutputID, size int64) error {
 	name := c.fileName(out, "d")
+	verifStep("copy.stat", name)
 	info, err := os.Stat(name)
 	if err == nil && info.Size() == size {
 		// Check hash.
+		verifStep("copy.verify", name)
 		if f, err := os.Open(name); err == nil {
 			h := sha256.New()
 			io.Copy(h, f)
@@ -506,6 +522,7 @@ func (c *DiskCache) copyFile(file io.ReadSeeker, out OutputID, size int64) error
 	if err == nil && info.Size() > size { // shouldn't happen but fix in case
 		mode |= os.O_TRUNC
 	}
+	verifStep("copy.open", name)
 	f, err := os.OpenFile(name, mode, 0666)
 	if err != nil {
 		return err
@@ -529,6 +546,7 @@ func (c *DiskCache) copyFile(file io.ReadSeeker, out OutputID, size int64) error
 	}
 	h := sha256.New()
 	w := io.MultiWriter(f, h)
+	w = verifWriter("copy.write", name, w)
 	if _, err := io.CopyN(w, file, size-1); err != nil {
 		f.Truncate(0)
 		return err
@@ -549,6 +567,7 @@ func (c *DiskCache) copyFile(file io.ReadSeeker, out OutputID, size int64) error
 	}
 
 	// Commit cache file entry.
+	verifStep("copy.last", name)
 	if _, err := f.Write(buf); err != nil {
 		f.Truncate(0)
 		return err
@@ -560,6 +579,7 @@ func (c *DiskCache) copyFile(file io.ReadSeeker, out OutputID, size int64) error
 		os.Remove(name)
 		return err
 	}
+	verifStep("copy.chtimes", name)
 	os.Chtimes(name, c.now(), c.now()) // mainly for tests
 
 	return nil
